@@ -35,6 +35,10 @@ type TxnCfg struct {
 	IndexBias bool
 	// MaxRows softly bounds table sizes.
 	MaxRows int
+	// NameClash lets two inserts of a transaction claim the same uuid-name.
+	NameClash bool
+	// NameBias raises the share of named inserts.
+	NameBias bool
 }
 
 // TxnGen holds generator state across a history.
@@ -369,10 +373,22 @@ func (g *TxnGen) genTxn(t *rapid.T, st State) []Op {
 			w = []string{"select", "update", "update", "mutate", "mutate", "delete", "delete", "wait"}
 		}
 		kinds[i] = rapid.SampledFrom(w).Draw(t, "opkind")
-		if kinds[i] == "insert" && g.Cfg.Named && rapid.IntRange(0, 2).Draw(t, "named") == 0 {
-			opName[i] = fmt.Sprintf("n%d", len(names))
-			names = append(names, opName[i])
-			g.nameTable[opName[i]] = tb.Name
+		nameOdds := 2
+		if g.Cfg.NameBias {
+			nameOdds = 0
+			if len(names) == 0 && i == nops-1 {
+				kinds[i] = "insert"
+			}
+		}
+		if kinds[i] == "insert" && g.Cfg.Named && rapid.IntRange(0, nameOdds).Draw(t, "named") == 0 {
+			if g.Cfg.NameClash && len(names) > 0 && rapid.IntRange(0, 7).Draw(t, "clash") == 0 {
+				opName[i] = names[0]
+				g.Excluded["name-clash-generated"] += 0
+			} else {
+				opName[i] = fmt.Sprintf("n%d", len(names))
+				names = append(names, opName[i])
+				g.nameTable[opName[i]] = tb.Name
+			}
 		}
 	}
 	if g.Cfg.RefBias && rapid.IntRange(0, 2).Draw(t, "composite") == 0 {
